@@ -122,6 +122,7 @@ const PROFILES: &[Profile] = &[
     prof("broken-sat", "map", "saturate"),
     prof("broken-entry", "map", "entry"),
     prof("broken-table", "table", "table"),
+    prof("broken-set", "set", "set"),
     prof("par", "par", "par"),
     prof("serde", "serde", "serde"),
     prof("table", "table", "table"),
@@ -254,7 +255,7 @@ fn make_base(prof: &Profile, seed: u64, i: usize, real: Option<&mut dyn Write>) 
     let mut pre = vec![format!("env pred={}", rng.below(1 << 30))];
     match prof.name {
         "broken-hash" => pre.push(format!("env hash=mix:{}", rng.below(1 << 30))),
-        "broken-entry" | "broken-table" => {
+        "broken-entry" | "broken-table" | "broken-set" => {
             if rng.chance(1, 2) {
                 pre.push(format!("env hash=mix:{}", rng.below(1 << 30)))
             } else {
